@@ -1,4 +1,37 @@
 """C05 check configuration (see lib/runner.py for the meaning of the keys)."""
+import json
+import os
+
+# code sites every run has to reach (DESIGN 6.20a); counted from the `site:` tags the driver derives per case
+SITES = ["accepted", "alg-mismatch", "alg-not-allowed", "signature", "assert-issuer", "assert-audience", "assert-nbf",
+         "assert-exp", "assert-iat", "assert-scopes", "getKey-unique", "getKey-cert", "without-kid-none", "subject",
+         "parse", "payload", "no-token", "jwks-comm", "jwks-status", "jwks-decode"]
+
+
+def site_coverage():
+    path = os.path.join(os.path.dirname(os.path.dirname(os.path.abspath(__file__))), "out", "C05", "obs_tokens.jsonl")
+    hits = {s: 0 for s in SITES}
+    nokid_accepted = merged = 0
+    try:
+        with open(path) as f:
+            for line in f:
+                try:
+                    tags = json.loads(line).get("tags") or []
+                except ValueError:
+                    continue
+                for t in tags:
+                    if t.startswith("site:") and t[5:] in hits:
+                        hits[t[5:]] += 1
+                if "site:accepted" in tags and "kid:absent" in tags:
+                    nokid_accepted += 1
+                if "site:accepted" in tags and "rule-override:yes" in tags:
+                    merged += 1
+    except OSError:
+        return {}
+    hits["verifyTokenWithoutKID accepted"] = nokid_accepted
+    hits["accepted under a rule-level Merge"] = merged
+    return {"site_hits": hits, "sites_without_hits": sorted(k for k, v in hits.items() if v == 0)}
+
 
 P = {
     "id": "C05",
@@ -74,6 +107,7 @@ P = {
                   "(argument / authentication [+assertion | +scope] / communication / internal), so the order of the assertions "
                   "is only visible where the class differs. Key cache, metadata_endpoint discovery, custom jwt_source and subject "
                   "attribute templates are not exercised. Open findings C05-F1, C05-F2 are printed as KNOWN-FINDING on every run.",
+    "extra_coverage": site_coverage,
     "assumptions": ["sane_clock: the clock lies after 1970 and before the int64 horizon by more than the leeway",
                     "the key cache is off in the driver (cache_ttl: 0s), every case fetches its own key set from the local JWKS server"],
 }
